@@ -206,7 +206,9 @@ def solve_eigen(A: spmatrix,
 
     if x is not None and I is not None:
         L, X = solver(A, M, **kwargs)
-        y = np.tile(x.copy()[:, None], (1, X.shape[1]))
+        # the expanded vectors must be able to hold the solution
+        y = np.tile(x.astype(np.result_type(x, X))[:, None],
+                    (1, X.shape[1]))
         if isinstance(I, tuple):
             np.add.at(y, I[0], np.array([I[1](x) for x in X.T]).T)
         else:
@@ -226,11 +228,13 @@ def solve_linear(A: spmatrix,
         solver = solver_direct_scipy(**kwargs)
 
     if x is not None and I is not None:
-        y = x.copy()
+        sol = solver(A, b, **kwargs)
+        # the expanded vector must be able to hold the solution
+        y = x.astype(np.result_type(x, sol))
         if isinstance(I, tuple):
-            np.add.at(y, I[0], I[1](solver(A, b, **kwargs)))
+            np.add.at(y, I[0], I[1](sol))
         else:
-            y[I] = solver(A, b, **kwargs)
+            y[I] = sol
         return y
     return solver(A, b, **kwargs)
 
@@ -389,7 +393,7 @@ def enforce(A: spmatrix,
             bout = enforce(b, D=D, diag=0., overwrite=overwrite)
         else:
             # set rhs to the given value
-            bout = b if overwrite else b.copy()
+            bout = b if overwrite else b.astype(np.result_type(b, x))
             bout[D] = x[D]
         return Aout, bout
 
@@ -448,10 +452,11 @@ def penalize(A: spmatrix,
     if b is None:
         return Aout
 
-    bout = b if overwrite else b.copy()
     # Nothing needs doing for mass matrix, but RHS vector needs penalty factor
-    if not isinstance(b, spmatrix):
-        bout[D] = x[D] / epsilon
+    if isinstance(b, spmatrix):
+        return Aout, b if overwrite else b.copy()
+    bout = b if overwrite else b.astype(np.result_type(b, x))
+    bout[D] = x[D] / epsilon
     return Aout, bout
 
 
